@@ -44,6 +44,10 @@ ItemOf(name) ==
                        tx |-> [strv |-> L("ab"), gov |-> <<>>, errv |-> <<>>, fmtv |-> L("F")]]
     [] name = "W1" -> [k |-> "obj", caps |-> <<"String", "Width">>, strv |-> "abc", gov |-> "", errv |-> "", fmtv |-> "F", h |-> 0, w |-> 1,
                        tx |-> [strv |-> L("abc"), gov |-> <<>>, errv |-> <<>>, fmtv |-> L("F")]]
+    [] name = "WH" -> [k |-> "obj", caps |-> <<"String", "Height", "Width">>, strv |-> "ab", gov |-> "", errv |-> "", fmtv |-> "F", h |-> 2, w |-> 4,
+                       tx |-> [strv |-> L("ab"), gov |-> <<>>, errv |-> <<>>, fmtv |-> L("F")]]
+    [] name = "W0" -> [k |-> "obj", caps |-> <<"String", "Width">>, strv |-> "", gov |-> "", errv |-> "", fmtv |-> "F", h |-> 0, w |-> 3,
+                       tx |-> [strv |-> <<>>, gov |-> <<>>, errv |-> <<>>, fmtv |-> L("F")]]
     [] name = "H3" -> [k |-> "obj", caps |-> <<"String", "Height">>, strv |-> "a", gov |-> "", errv |-> "", fmtv |-> "F", h |-> 3, w |-> 0,
                        tx |-> [strv |-> L("a"), gov |-> <<>>, errv |-> <<>>, fmtv |-> L("F")]]
     [] name = "H1" -> [k |-> "obj", caps |-> <<"String", "Height">>, strv |-> "a\nbb", gov |-> "", errv |-> "", fmtv |-> "F", h |-> 1, w |-> 0,
@@ -81,7 +85,7 @@ Next ==
   \/ ph = "wrap" /\ Do([op |-> "wrap", kind |-> Fmt, over |-> [t |-> 1]],
                         IF Fmt = "text" THEN "decor" ELSE IF Fmt = "html" THEN "html" ELSE "render")
   \/ ph = "html" /\ \E hc \in HtmlChoices :
-        IF hc = "none" THEN Skip("render")
+        IF hc \in {"none", "regen"} THEN Skip("render")
         ELSE Do([op |-> "htmlopts", w |-> 1, id |-> IF hc = "all" THEN "ID" ELSE "", class |-> IF hc = "all" THEN "CL" ELSE "",
                  caption |-> IF hc = "all" THEN "CAP" ELSE "", gen |-> 1,
                  genvals |-> IF hc = "gen0" THEN <<>> ELSE <<"r0", "r1">>], "render")
@@ -91,6 +95,11 @@ Next ==
                  dec |-> IF d = "none" THEN [DefaultDec EXCEPT !.boxless = 1, !.g = [f \in DOMAIN DefaultDec.g |-> ""]]
                          ELSE DefaultDec], "render")
   \/ ph = "render" /\ Do([op |-> "render", w |-> 1, entry |-> "Render"], "done")
+  \* the same wrapper again after its options changed (a generator set, replaced or its values changed)
+  \/ ph = "done" /\ Fmt = "html" /\ "regen" \in HtmlChoices
+                 /\ Cardinality({i \in DOMAIN hist : hist[i].op = "render"}) = 1
+                 /\ Do([op |-> "htmlopts", w |-> 1, id |-> "", class |-> "K", caption |-> "", gen |-> 1, genvals |-> <<"s0", "s1", "s2">>], "render2")
+  \/ ph = "render2" /\ Do([op |-> "render", w |-> 1, entry |-> "RenderTo"], "done")
 
 Spec == Init /\ [][Next]_vars
 View == <<st, ph>>
